@@ -58,7 +58,17 @@ def where(c):
         return "swaps:" + ("N" if c["lat"] == -1 else "finite")
     n = len(c["pairs"])
     empt = any((not a) or (not b) for a, b in c["pairs"])
-    return f"fibers{n}" + (":some-empty" if empt else "")
+    # the class of the known one-shot finding: a fiber pair that is not the last of the sequence in which the merge ends with one operand exhausted while the
+    # other still has an element that was touched but never compared (a match that exhausts one side, or an operand that is empty from the start)
+    def leftover(a, b):
+        if not a and not b:
+            return False
+        if not a or not b:
+            return True
+        la, lb = max(a), max(b)
+        return (la < lb and la in b) or (lb < la and lb in a)
+    lo = any(leftover(a, b) for a, b in c["pairs"][:-1])
+    return f"fibers{n}" + (":some-empty" if empt else "") + (":leftover-head" if lo else "")
 
 
 def replay(ctx, rec):
